@@ -84,12 +84,22 @@ def case_loader(seed, out, spec):
             order = r.randrange(3)
             cls = plugins.make(nm, ['dec'], order=order)
             names.append('vf.plugins.' + nm)
-            how = r.pick(['bool_false', 'bool_true', 'raises'])
+            how = r.pick(['bool_false', 'bool_true', 'raises', 'order_raises', 'order_is_text'])
             if how == 'bool_false':
                 custom_cfg[('plugin_%s' % nm).upper()] = False
             elif how == 'bool_true':
                 custom_cfg[('plugin_%s' % nm).upper()] = True     # switched on is switched on
                 expect.append((nm, order))
+            elif how == 'order_raises':
+                # a plugin that cannot even say where it wants to be: it is the one that is left out (or sorted as 0),
+                # the others are loaded and ordered as usual
+                def bad_order(self):
+                    raise RuntimeError('no order for %s' % nm)
+                cls.order = bad_order
+                ambiguous.add(nm)
+            elif how == 'order_is_text':
+                cls.order = lambda self: 'first'
+                ambiguous.add(nm)
             else:
                 def broken(self):
                     raise RuntimeError('cannot tell whether %s is active' % nm)
@@ -113,7 +123,13 @@ def case_loader(seed, out, spec):
     except BaseException as e:  # noqa
         out.violation('loader:raised', 'load_plugins raised %r' % (e,), witness, replay)
         return
-    got = [(p.name, p.order() or 0) for p in loaded]
+    def _order(p):
+        try:
+            o = p.order() or 0
+            return o if isinstance(o, int) else None
+        except BaseException:  # noqa
+            return None
+    got = [(p.name, _order(p)) for p in loaded]
     witness['loaded'] = got
     mine = [g for g in got if g[0].startswith('Load') and g[0] not in ambiguous]
     if sorted(mine) != sorted(expect):
@@ -123,7 +139,7 @@ def case_loader(seed, out, spec):
         out.violation(mech, 'loaded %s, expected %s (missing %s, unexpected %s)' % (mine, expect, missing, extra),
                       witness, replay)
         return
-    orders = [g[1] for g in got]
+    orders = [g[1] for g in got if g[1] is not None]
     if orders != sorted(orders):
         out.violation('loader:not-ordered', 'plugins not sorted by their declared order: %s' % got, witness, replay)
         return
